@@ -1,8 +1,100 @@
-import YouVerif.C02.Model
+/-
+C02 — "An honest validator never signs two conflicting votes, even across restarts."
+
+The theorems are about `run init evs` for EVERY event history `evs : List Ev` of the model in Model.lean:
+contexts (step timers, index and round changes in any order, also backwards), received votes of any content
+(any quorums for any hashes), changes of what the collaborators answer (proposals, own sortition, block cache),
+crashes between calls (`Ev.crash`) and inside calls (`Ev.arm n after`: the next call dies at its n-th `db.Put`,
+before the write or between the write and the post of the vote). `(run init evs).g.sent` is the list of votes
+that left the node (SendMessageEvents) over the whole history, `persisted` records whether the vote's record was in
+the database at the moment it was posted.
+-/
+import YouVerif.C02.ProofsRun
 namespace YouVerif.C02.Props
 open YouVerif.C02
 
-/-- placeholder while the tie is brought up: a fresh node has signed nothing -/
-theorem init_signed_nothing : init.g.sent = [] := rfl
+/-- At most one prevote, one precommit and one certificate vote per (round, index), over every history
+    with every crash point. -/
+theorem at_most_one_vote (evs : List Ev) (k : Kind) (hk : k ≠ .next) (r i : Nat) :
+    (signedIn (run init evs).g.sent k r i).length ≤ 1 := by
+  have := (inv_run evs).1.capped k ⟨r, i⟩
+  unfold cnt at this
+  cases k <;> simp_all [Kind.cap]
+
+/-- At most two next-index votes per (round, index). -/
+theorem at_most_two_next (evs : List Ev) (r i : Nat) :
+    (signedIn (run init evs).g.sent .next r i).length ≤ 2 :=
+  (inv_run evs).1.capped .next ⟨r, i⟩
+
+/-- The property as stated: two votes of the same kind (not next-index) that left the node for the same
+    (round, index) are for the same block hash — they are in fact one and the same vote. -/
+theorem no_equivocation (evs : List Ev) :
+    ∀ a ∈ (run init evs).g.sent, ∀ b ∈ (run init evs).g.sent,
+      a.kind = b.kind → a.kind ≠ .next → a.round = b.round → a.index = b.index → a.hash = b.hash := by
+  intro a ha b hb hkind hnext hround hindex
+  have hlen := at_most_one_vote evs a.kind hnext a.round a.index
+  have hma : a ∈ signedIn (run init evs).g.sent a.kind a.round a.index := by
+    unfold signedIn; simp [List.mem_filter, ha]
+  have hmb : b ∈ signedIn (run init evs).g.sent a.kind a.round a.index := by
+    unfold signedIn; simp [List.mem_filter, hb, hkind, hround, hindex]
+  generalize signedIn (run init evs).g.sent a.kind a.round a.index = l at *
+  match l, hlen, hma, hmb with
+  | [x], _, hma, hmb =>
+    simp at hma hmb; rw [hma, hmb]
+  | _ :: _ :: _, hlen, _, _ => simp at hlen
+
+/-- Every vote that left the node had its record in the database when it was posted (`UpdateVoteData` persists
+    before `vote` posts), for every history and crash point. -/
+theorem persisted_before_sent (evs : List Ev) : ∀ x ∈ (run init evs).g.sent, x.persisted = true :=
+  (inv_run evs).1.persisted
+
+/-- What makes restarts safe: at every moment — also in the middle of a call and after the process has died —
+    every vote that left the node is covered by a stored record of its kind for the same or a later (round, index). -/
+theorem records_cover_sent (evs : List Ev) :
+    ∀ x ∈ (run init evs).g.sent, ∃ idx y, (idx = 1 ∨ (x.kind = .next ∧ idx = 2)) ∧
+      (run init evs).g.p x.kind idx = some y ∧ (⟨x.round, x.index⟩ : Ctx).le y :=
+  (inv_run evs).1.covered
+
+/-- A restarted node knows what it signed: the marks rebuilt by `NewVoteDB` from the records are exactly the
+    number of records of each kind at the newest recorded context, and that context bounds every record. -/
+theorem restart_rebuilds_marks (p : Persist) :
+    match (restore p).round with
+    | none => ∀ k idx, (idx = 1 ∨ (k = .next ∧ idx = 2)) → p k idx = none
+    | some cr => (∀ k idx y, (idx = 1 ∨ (k = .next ∧ idx = 2)) → p k idx = some y → y.le ⟨cr, (restore p).index⟩) ∧
+        ∀ k, (restore p).mark k = nrec p k ⟨cr, (restore p).index⟩ := by
+  have h := live_restore p
+  unfold Live at h
+  cases hr : (restore p).round with
+  | none => simp only [hr] at h; exact h.1
+  | some cr => simp only [hr] at h; exact h
+
+/-- `VoteDB.UpdateContext` never moves the voting context backwards. -/
+theorem context_monotone (c : Cache) (r i : Nat) :
+    c.updateContext r i = c ∨ ∀ cr, c.round = some cr → (⟨cr, c.index⟩ : Ctx).lt ⟨r, i⟩ := by
+  rcases updateContext_cases c r i with h | h
+  · exact Or.inl h
+  · exact Or.inr h.2
+
+/-! ### non-vacuity: the theorems are not about an empty behaviour (tests on literals) -/
+
+/-- the F-C02a history (prevote 10 in (7,1), on to (7,2), restart, other proposal, back to (7,1)):
+    four votes leave the node, and the second visit of (7,1) signs nothing -/
+example :
+    let evs := [Ev.env { proposal := some ⟨10, 1⟩ }, .ctx 7 1 2 false, .ctx 7 2 2 false, .crash,
+                .env { proposal := some ⟨11, 1⟩ }, .ctx 7 1 2 false]
+    ((run init evs).g.sent.map fun x => (x.kind.code, x.round, x.index, x.hash)) =
+      [(2, 7, 1, 10), (3, 7, 1, 10), (2, 7, 2, 10), (3, 7, 2, 10)] := by decide
+
+/-- a crash between `db.Put` and the post: the record is stored, nothing left the node, and after the restart
+    the vote is not signed again -/
+example :
+    let evs := [Ev.env { proposal := some ⟨10, 1⟩ }, .arm 1 true, .ctx 7 1 2 false, .ctx 7 1 2 false]
+    (run init evs).g.sent = [] ∧ (run init evs).g.p .prevote 1 = some ⟨7, 1⟩ := by decide
+
+/-- two next-index votes in one (round, index) do happen (the bound 2 is attained) -/
+example :
+    let evs := [Ev.env { seat := fun _ => some { w := 1, vt := 1, q := 5 } }, .ctx 3 1 4 false, .ctx 3 1 5 false,
+                .ctx 3 1 4 false, .crash, .ctx 3 1 4 false]
+    (signedIn (run init evs).g.sent .next 3 1).length = 2 := by decide
 
 end YouVerif.C02.Props
